@@ -38,7 +38,7 @@ func refParse(data string) (entries []Entry, err error) {
 			continue
 		}
 		if len(l) < 2 || l[0] != '[' || l[len(l)-1] != ']' {
-			return entries, fmt.Errorf("line %d: expected an entry header, found %q", i+1, clip(l))
+			return entries, fmt.Errorf("line %d: expected an entry header, found %q", i+1, vhClip(l))
 		}
 		id := l[1 : len(l)-1]
 		i++
@@ -111,24 +111,24 @@ func entriesEqual(a, b []Entry) bool {
 func describeEntries(es []Entry) string {
 	var parts []string
 	for _, e := range es {
-		parts = append(parts, fmt.Sprintf("[%s]=%q", e.ID, clip(string(e.Body))))
+		parts = append(parts, fmt.Sprintf("[%s]=%q", e.ID, vhClip(string(e.Body))))
 	}
 	return strings.Join(parts, " ")
 }
 
 // naturalLess: independent chunk-wise natural comparison (digit runs numerically, the rest bytewise).
 // Returns -1, 0, 1. Digit runs that are numerically equal compare equal regardless of zero padding.
-func naturalCmp(a, b string) int {
+func vhNaturalCmp(a, b string) int {
 	i, j := 0, 0
 	for i < len(a) && j < len(b) {
-		ad, bd := isDigit(a[i]), isDigit(b[j])
+		ad, bd := vhIsDigit(a[i]), vhIsDigit(b[j])
 		if ad && bd {
 			si := i
-			for i < len(a) && isDigit(a[i]) {
+			for i < len(a) && vhIsDigit(a[i]) {
 				i++
 			}
 			sj := j
-			for j < len(b) && isDigit(b[j]) {
+			for j < len(b) && vhIsDigit(b[j]) {
 				j++
 			}
 			na := strings.TrimLeft(a[si:i], "0")
@@ -165,7 +165,7 @@ func naturalCmp(a, b string) int {
 	return 0
 }
 
-func isDigit(c byte) bool { return c >= '0' && c <= '9' }
+func vhIsDigit(c byte) bool { return c >= '0' && c <= '9' }
 
 // refParseLoose is refParse for files that may end with an unterminated entry (e.g. a file truncated by a crash):
 // the complete entries are returned, the dangling tail is ignored.
